@@ -349,7 +349,11 @@ func (w *Writer) Close() error {
 }
 
 func (w *Writer) validateCommitRange(end telem.TimeStamp, switchingFile bool) error {
-	if !w.prevCommit.IsZero() && !switchingFile && end.Before(w.prevCommit) {
+	// A commit that rolls the file over uses the given end instead of a preset one, so
+	// for a writer with a preset end (whose previous commit end is that preset) it may
+	// legitimately lie below it. For every other writer a rollover is no reason to let
+	// the committed range move backwards.
+	if !w.prevCommit.IsZero() && !(switchingFile && w.presetEnd) && end.Before(w.prevCommit) {
 		return errors.Wrapf(validate.ErrValidation, "commit timestamp %s must not be less than the previous commit timestamp %s: it is less by a time span of %v", end, w.prevCommit, end.Span(w.prevCommit))
 	}
 	if !w.Start.Before(end) {
